@@ -133,7 +133,28 @@ func init() {
 		storage.VerifCacheCap = op.M
 		return nil
 	}
-	ops["init"] = func(op *proto.Op, res *proto.Res) error { return storage.InitStorage() }
+	ops["init"] = func(op *proto.Op, res *proto.Res) error {
+		// count what recovery did (single goroutine: the timer is off in
+		// InitStorage's own stores)
+		var dirty, writes int64
+		pm, pw := storage.VerifMarkDirty, storage.VerifPageWrite
+		storage.VerifMarkDirty = func(off, lsn uint64) {
+			dirty++
+			if pm != nil {
+				pm(off, lsn)
+			}
+		}
+		storage.VerifPageWrite = func(off uint64) {
+			writes++
+			if pw != nil {
+				pw(off)
+			}
+		}
+		defer func() { storage.VerifMarkDirty, storage.VerifPageWrite = pm, pw }()
+		err := storage.InitStorage()
+		res.N, res.M = dirty, writes
+		return err
+	}
 	ops["session"] = func(op *proto.Op, res *proto.Res) error { sess = &engine.Session{}; return nil }
 	ops["sql"] = func(op *proto.Op, res *proto.Res) error { return sess.ExecQuery(op.SQL) }
 	ops["query"] = opQuery
